@@ -185,9 +185,11 @@ def run_C08(ctx, rep):
 def run_C09(ctx, rep):
     names = ('pk_ascent', 'pk_ascent_par', 'pk_init_ascent', 'timeout', 'timeout_par', 'ruletimes', 't_redecl', 't_redecl_clear', 'generic',
              'inc_start', 'inc_mid', 'inc_end', 'inc_start_par', 'inc_mid_par', 'inc_end_par',
-             'inc_redecl_after', 'inc_redecl_before', 'inc_redecl_around', 'inc_agg', 'inc_agg_par')
-    gen_driver.run_twins(ctx, rep, lambda n, k: n in names, floors={'T.C': 18})
+             'inc_redecl_after', 'inc_redecl_before', 'inc_redecl_around', 'inc_agg', 'inc_agg_par', 'inc_lat')
+    gen_driver.run_twins(ctx, rep, lambda n, k: n in names, floors={'T.C': 19})
     gen_driver.run_gen(ctx, rep, ['G2G7', 'G8'], floors={'G7': 6, 'G8': 60})
+    # ascent_run!: the rules mean what their text says, captured locals included (they are constants of the rule)
+    gen_driver.run_tv(ctx, rep, only_tags=['run'], floors={'R1': 10})
 
 
 def run_C06(ctx, rep):
